@@ -54,6 +54,12 @@ DW_PREFIX = [
     ("entry ?(offset 0x40 ?lt) offset", "scalar"), ("entry ?TAG_subprogram name", "scalar"),
 ]
 
+# queries whose results are DWARF values (DIEs, units, attributes, symbols): the model does not
+# say how those are rendered, but several files must print what each file prints alone
+DWVAL_BODIES = ["entry", "unit", "(unit, entry)", "entry dup unit", "entry attribute", "entry ?root child", "unit root",
+                "symbol", "entry @AT_type", "abbrev", "[entry] elem", "entry ?root [child]", "entry ?root", "unit dup root",
+                "entry ?root dup unit swap", "[unit] elem", "entry abbrev", "entry @AT_location", "entry address"]
+
 ARG_LIT = ["x", "foo", "a1", "hello", "7", "zz9"]
 # -a passes its argument verbatim, whatever is in it
 ARG_LIT_SPECIAL = ["100%%", "a%(1 2 add%)b", "%d items", "50%", "q\"uote", "back\\slash", "%s", "%", "a b", "%x%%",
@@ -134,6 +140,12 @@ def make_plan(rng, idx):
         cli["query"] = argdep
         cli["qclass"] = "fail-for-one-combination"
     cli["qmode"] = rng.choice(["e", "e", "e", "f", "f-", "pos", "expr"])
+    if nfiles >= 2 and not cli["args"] and all(f["health"] == "ok" for f in cli["files"]) and rng.random() < 0.5:
+        # metamorphic: what several files print is what each prints alone, one after the other
+        cli["query"] = rng.choice(DWVAL_BODIES)
+        cli["qclass"] = "dwarf-values"
+        cli["meta_concat"] = True
+        cli["opts"] = [o for o in cli["opts"] if o not in ("-q", "--quiet", "--silent", "-c", "--count")]
     plan["cli"] = cli
     derive(plan)
     cfg = "opts=%d files=%d args=%d" % (len(cli["opts"]) > 0, nfiles, nargs)
@@ -636,6 +648,35 @@ def judge_failure_clause(plan, lib, resp):
     return None
 
 
+def judge_concat(z, plan, resp):
+    """Several files and no other arguments: stdout is what the files give one
+    by one (with -H, so that the header is there in both), concatenated."""
+    cli = plan["cli"]
+    if len(cli["files"]) < 2 or cli["args"]:
+        return None
+    noh = any(o in ("-h", "--no-filename") for o in cli["opts"])
+    cat = b""
+    for f in cli["files"]:
+        p1 = P.clone(plan)
+        p1["cli"]["files"] = [dict(f)]
+        p1["cli"]["meta_concat"] = False
+        if not noh and not any(o in ("-H", "--with-filename") for o in p1["cli"]["opts"]):
+            p1["cli"]["opts"] = p1["cli"]["opts"] + ["-H"]
+        derive(p1)
+        r1 = z.run(p1)
+        if r1.cli is None:
+            return None
+        cat += r1.cli["out"]
+    if cat != resp.cli["out"]:
+        argv = " ".join(repr(a) for a in plan.get("argv", []))
+        # first difference
+        n = next((i for i in range(min(len(cat), len(resp.cli["out"]))) if cat[i] != resp.cli["out"][i]), min(len(cat), len(resp.cli["out"])))
+        return ("cli:several-files-differ-from-one-by-one",
+                "%s\nstdout differs from the concatenation of the single-file runs at byte %d:\n together: %r\n one by one: %r"
+                % (argv, n, resp.cli["out"][max(0, n - 60):n + 60], cat[max(0, n - 60):n + 60]))
+    return None
+
+
 def simulate(z, plan, clause_only=False):
     derive(plan)
     out = E.Outcome()
@@ -683,6 +724,12 @@ def simulate(z, plan, clause_only=False):
         st.probe("several_combinations")
     if any((n == 0) for n in lib.get("argvals", [])):
         st.probe("argument_yields_nothing")
+    if out.violation is None and resp.cli is not None and cli.get("meta_concat") and not clause_only:
+        j = judge_concat(z, plan, resp)
+        if j is not None:
+            v = O.Violation("cli", j[1], plan)
+            v.klass_str = j[0]
+            out.violation = v
     if out.violation is None and resp.cli is not None:
         j = judge_failure_clause(plan, lib, resp) if clause_only else judge(plan, lib, resp)
         if j is not None:
